@@ -57,22 +57,38 @@ func windowCases() []winCase {
 	}
 }
 
-func runOne(kind string, s *Script, cfg lint.Configuration, c *x509.Certificate, nb time.Time) (Obs, []int) {
+// runOne executes one lint object three times on the same object: every execution must behave like the first
+// (one constructor call, fresh instance, same result).  It returns the first observation and, when a later run
+// differs, a description of the difference.
+func runOne(kind string, s *Script, cfg lint.Configuration, c *x509.Certificate, nb time.Time) (Obs, []int, string) {
 	log := []int{}
 	var o Obs
 	s.armed = true
+	s.Stateful = true
+	var exec func() Obs
 	switch kind {
 	case "cert":
 		l := s.certLint(&log)
-		o = observe(func() *lint.LintResult { return l.Execute(c, cfg) })
+		exec = func() Obs { return observe(func() *lint.LintResult { return l.Execute(c, cfg) }) }
 	case "crl":
 		l := s.crlLint(&log)
-		o = observe(func() *lint.LintResult { return l.Execute(&x509.RevocationList{ThisUpdate: nb}, cfg) })
+		exec = func() Obs { return observe(func() *lint.LintResult { return l.Execute(&x509.RevocationList{ThisUpdate: nb}, cfg) }) }
 	case "ocsp":
 		l := s.ocspLint(&log)
-		o = observe(func() *lint.LintResult { return l.Execute(&ocsp.Response{NextUpdate: nb}, cfg) })
+		exec = func() Obs { return observe(func() *lint.LintResult { return l.Execute(&ocsp.Response{NextUpdate: nb}, cfg) }) }
 	}
-	return o, log
+	o = exec()
+	first := append([]int{}, log...)
+	diff := ""
+	for rep := 2; rep <= 3; rep++ {
+		log = log[:0]
+		o2 := exec()
+		if o2 != o || fmt.Sprint(log) != fmt.Sprint(first) {
+			diff = fmt.Sprintf("execution %d of the same lint gives %+v with call log %v; the first gave %+v with call log %v", rep, o2, log, o, first)
+			break
+		}
+	}
+	return o, first, diff
 }
 
 // stream "product": single mock lints over the product of life-cycle dimensions
@@ -140,7 +156,11 @@ func genProduct(out *Output, rng *Rng, limit int) {
 		c := scopeCert(cb.sa, cb.em, cb.cs, cb.w.target)
 		ao := absCert(c)
 		ao.TU, ao.NU = cb.w.target, cb.w.target
-		o, log := runOne(cb.kind, s, cfg, c, cb.w.target)
+		o, log, repDiff := runOne(cb.kind, s, cfg, c, cb.w.target)
+		if repDiff != "" {
+			out.Violate("C04|not-fresh-instance:"+cb.kind, "a later execution of the same lint does not behave like a fresh, freshly configured instance: "+repDiff,
+				map[string]interface{}{"kind": cb.kind, "script": s, "window": cb.w.name}, nil, nil)
+		}
 		term := fmt.Sprintf("(%s, %s, %s, %s, %s)", kindCoq[cb.kind], s.Coq(), ao.Coq(), o.Coq(), cqLog(log))
 		tag := fmt.Sprintf("%s/%s/%v/%d", cb.kind, o.Kind, o.Status, len(log))
 		addMonitor(out, monitorRun(cb.kind, s, ao, cb.w.target, o, log, true),
@@ -220,6 +240,27 @@ func genWindow(out *Output, rng *Rng, nRandom int, pairStride int) {
 					emit(e, i, d.Add(dl).In(zones[rng.Intn(3)]))
 				}
 			}
+		}
+	}
+	// instants far outside the range in which nanosecond counters fit (before 1677-09-21, after 2262-04-11), and the
+	// edges of that range: the comparison must be on instants, not on any wrapped representation
+	extremes := []time.Time{
+		time.Date(1, 1, 1, 0, 0, 1, 0, time.UTC), time.Date(1000, 6, 1, 0, 0, 0, 0, time.UTC), time.Date(1500, 1, 1, 0, 0, 0, 0, time.UTC),
+		time.Date(1601, 1, 1, 0, 0, 0, 0, time.UTC), time.Date(1677, 9, 21, 0, 12, 43, 0, time.UTC), time.Date(1677, 9, 21, 0, 12, 44, 0, time.UTC),
+		time.Date(1700, 1, 1, 0, 0, 0, 0, time.UTC), time.Date(1950, 1, 1, 0, 0, 0, 0, time.UTC), time.Date(2262, 4, 11, 23, 47, 16, 0, time.UTC),
+		time.Date(2262, 4, 11, 23, 47, 17, 0, time.UTC), time.Date(2300, 1, 1, 0, 0, 0, 0, time.UTC), time.Date(2846, 1, 1, 0, 0, 0, 0, time.UTC),
+		time.Date(9999, 12, 31, 23, 59, 59, 0, time.UTC), util.ZeroDate,
+	}
+	for _, x := range extremes {
+		for _, d := range []time.Time{dates[0], dates[len(dates)/2], dates[len(dates)-1], {}} {
+			emit(d, time.Time{}, x)
+			emit(time.Time{}, d, x)
+			emit(x, d, refDate)
+			emit(d, x, refDate)
+		}
+		for _, y := range extremes {
+			emit(x, y, refDate)
+			emit(x, time.Time{}, y)
 		}
 	}
 	// util.ZeroDate (year 0) is not the zero time
